@@ -83,8 +83,8 @@ META["C09"] = {
 }
 
 META["C20"] = {
-    "text": "Bounded symbolic model checking of (a) the real FactoidToFactoshi with strconv.Atoi/ParseUint interpreted from their SSA over decimal strings whose every digit is a solver variable: an accepted amount equals the exact decimal value x 1e8 (as a mathematical integer), more than 8 decimals are rejected, nothing is silently altered; (b) the real Transaction.Validate / TransactionBatch.ValidData on arbitrary decoded batches: accepted <=> version 1, >=1 transaction, one non-reserved input address, exactly one of transfers/conversion, transfers sum to the input without wrap, conversion differs from the input type. Found D13 (wrapping amount), repaired by a fix: commit.",
-    "note": "0..20 integer and 0..9 fraction digits; <=2 transactions x <=2 transfers; the three regular expressions are per-pattern models; NOT claimed (not-applicable sub-claim): the JSON parser's accepted language and the marshal/unmarshal round trip",
+    "text": "Bounded symbolic model checking of (a) the real FactoidToFactoshi with strconv.Atoi/ParseUint interpreted from their SSA over decimal strings whose every digit is a solver variable: an accepted amount equals the exact decimal value x 1e8 (as a mathematical integer), more than 8 decimals are rejected, nothing is silently altered; (c) the real UnmarshalJSON methods of Transaction, TransactionBatch and AddressAmountTuple accept exactly the objects made of their expected members, once each; (b) the real Transaction.Validate / TransactionBatch.ValidData on arbitrary decoded batches: accepted <=> version 1, >=1 transaction, one non-reserved input address, exactly one of transfers/conversion, transfers sum to the input without wrap, conversion differs from the input type. Found D13 (wrapping amount), repaired by a fix: commit.",
+    "note": "0..20 integer and 0..9 fraction digits; <=2 transactions x <=2 transfers; the three regular expressions are per-pattern models; JSON: the object level of the three length-checked decoders is decided (which member sets, incl. duplicates, unknown members, empty/null transfers, are accepted: the real UnmarshalJSON methods run over an object-level document model, natively over real bytes); NOT claimed (not-applicable sub-claim): everything below the object level - whitespace, escapes, number syntax, TypedAddressAmountTuple's tagged field - and the marshal/unmarshal round trip",
     "design_ref": "DESIGN.md §7 C20",
 }
 
